@@ -313,6 +313,11 @@ def cex_of(m, ghosts, sym_i, extra):
     return out
 
 
+def dda_at(with_dda, i):
+    """with_dda: bool for every record, or a pattern such as 'YNY' (record i carries a double-dummy table iff 'Y')"""
+    return with_dda[i] == 'Y' if isinstance(with_dda, str) else bool(with_dda)
+
+
 def case_logs(m, sym_i, tricks_n, auction_n, with_dda):
     from bridge_env.data_handler.json_handler.parser import JsonParser
     from bridge_env.data_handler.json_handler.writer import JsonLogWriter
@@ -322,7 +327,7 @@ def case_logs(m, sym_i, tricks_n, auction_n, with_dda):
         eng.summarize.add(Player.__str__)
         jsonio.install(eng)
         install_codecs(eng)
-        recs = [make_record(eng, i, i == sym_i, tricks_n, auction_n, with_dda) for i in range(m)]
+        recs = [make_record(eng, i, i == sym_i, tricks_n, auction_n, dda_at(with_dda, i)) for i in range(m)]
         ghosts = [g for _, g in recs]
         extra = dict(tricks_n=tricks_n, auction_n=auction_n, with_dda=with_dda)
         cex = lambda mm: cex_of(mm, ghosts, sym_i, extra)
@@ -369,9 +374,12 @@ def case_logs(m, sym_i, tricks_n, auction_n, with_dda):
 
 def cases(tier):
     cs = [(case_logs, 'empty list of records', dict(m=0, sym_i=None, tricks_n=0, auction_n=0, with_dda=False))]
-    combos = [(1, 0, 1, 3, False), (1, 0, 13, 4, True), (2, 1, 2, 3, True), (3, 1, 0, 0, False), (3, 2, 1, 6, False), (2, 0, 2, 0, True)]
+    # dda patterns: tables on some records only, in every order (state kept by the writer between records must not leak)
+    combos = [(1, 0, 1, 3, False), (1, 0, 13, 4, True), (2, 1, 2, 3, True), (3, 1, 0, 0, False), (3, 2, 1, 6, False), (2, 0, 2, 0, True),
+              (2, 1, 1, 2, 'YN'), (2, 0, 1, 2, 'YN'), (3, 1, 0, 1, 'NYN'), (3, 2, 1, 0, 'YNY')]
     if tier == 'thorough':
-        combos += [(3, 0, 13, 6, True), (3, 2, 13, 6, True), (2, 1, 13, 0, False), (1, 0, 2, 6, False), (3, 1, 2, 6, True)]
+        combos += [(3, 0, 13, 6, True), (3, 2, 13, 6, True), (2, 1, 13, 0, False), (1, 0, 2, 6, False), (3, 1, 2, 6, True),
+                   (3, 2, 2, 3, 'YNN'), (3, 0, 2, 3, 'NNY'), (2, 0, 13, 4, 'NY'), (3, 1, 1, 6, 'YYN')]
     for m, i, t, a, d in combos:
         cs.append((case_logs, f'{m} records, record {i} symbolic, {t} tricks, {a} calls, dda={d}', dict(m=m, sym_i=i, tricks_n=t, auction_n=a, with_dda=d)))
     return cs
@@ -381,7 +389,7 @@ META = dict(
     level='model_checking',
     bounds=lambda tier: {'records': 'lists of 0..3 records; one record fully symbolic (each position in turn), the others fixed',
                          'symbolic record': 'dealer, vulnerability, declarer, contract (35 bids x doubling flags, passed out with final bid None or Pass), deal = four disjoint 52-bit sets, '
-                                            'auction of 0..6 symbolic calls, 0/1/2/13 tricks (first and last trick symbolic leader and cards), tricks 0..13, scores, names/ids of 2-3 unconstrained code points, optional dda'},
+                                            'auction of 0..6 symbolic calls, 0/1/2/13 tricks (first and last trick symbolic leader and cards), tricks 0..13, scores, names/ids of 2-3 unconstrained code points, optional dda; tables on all, none or some of the records (patterns YN, NYN, YNY, ...)'},
     stubs=['json.dumps -> opaque token carrying the normalised data; json.load parses the framing with the real json module and re-inserts the data',
            'file object = capturing list of chunks', 'str()/str_to_* of Bid, Card, Contract replaced by opaque codecs (their round trip is C15)'],
     assumptions=['json.loads(json.dumps(d)) == d for str-keyed dict/list/str/int/None', 'the schema validator in harness/jsonio.py covers the keywords the two published schemas use (an unknown keyword stops the run)'],
